@@ -365,7 +365,8 @@ def make_env(workdir, seed, tag="", variant=0):
     import amr_kitchen
     env = {}
     d3 = dict(mesh3(variant), seed=seed)
-    env["p3"], ref3 = build(d3, workdir, "plt00010" + tag)
+    # (layout variant 1: the process has read boxes of this plotfile before and edited the arrays it was given)
+    env["p3"], ref3 = build(d3, workdir, "plt00010" + tag, prehistory=(variant == 1))
     same = dict(d3, fields=["Zvar", "Y(H2)"], seed=seed + 1, payload="coded")
     env["p3same"], _ = build(same, workdir, "plt00011" + tag)
     other = dict(same)
